@@ -112,4 +112,6 @@ def harnesses(world, tier, seed):
                    expected_classes=('Done:Authoritative', 'Done:NonAuthoritative', 'Done:AuthoritativeNameError', 'Partial', 'CNAME', 'Err:DeadEnd')),
         Merge(name='prioritising-merge', bounds={'priority': '0..2 records', 'new': '0..2 records', 'records': '1-label owners symbolic over {a,b,c}; A | CNAME | TXT'}, expected_classes=('merged',)),
     ]
-    return hs, (480 if q else 2700), None
+    import modes
+    hs.append(modes.harnesses_modes(q, 'C01'))
+    return hs, (1500 if q else 5400), None
